@@ -337,8 +337,9 @@ func refMnemonic(ent []byte) string {
 // passphrases with their NFKD form (hand table: the generator has no normaliser)
 var passphrases = [][2]string{
 	{"", ""}, {"TREZOR", "TREZOR"}, {"correct horse battery staple", "correct horse battery staple"},
-	{" leading and trailing ", " leading and trailing "}, {"é", "é"}, {"パスワード", "パスワード"},
-	{"пароль", "пароль"}, {"\x00\x01\x02", "\x00\x01\x02"},
+	{" leading and trailing ", " leading and trailing "}, {"e\u0301", "e\u0301"},
+	{"\u30cf\u309a\u30b9\u30ef\u30fc\u30c8\u3099", "\u30cf\u309a\u30b9\u30ef\u30fc\u30c8\u3099"},
+	{"\u043f\u0430\u0440\u043e\u043b\u044c", "\u043f\u0430\u0440\u043e\u043b\u044c"}, {"\x00\x01\x02", "\x00\x01\x02"}, {"\u4e2d\u6587", "\u4e2d\u6587"},
 }
 
 // not in NFKD: the implementation salts with the bytes as given, the standard with the normalised form
